@@ -1,4 +1,6 @@
+pub mod hash;
 pub mod movegen;
+pub mod statics;
 use crate::runner::{CaseResult, Ctx};
 use serde_json::Value;
 
@@ -19,6 +21,26 @@ pub fn run(ctx: &mut Ctx) -> bool {
             ctx.assumptions = vec!["oracle validated each run against published perft totals".into()];
             movegen::run_c13(ctx);
         }
+        "C04" => {
+            ctx.rule = "Cases are games: a legal start (startpos, corpus FEN, constructed castle/promotion/en-passant placement) plus a weighted random legal move list in UCI text, 0-200 plies. After EVERY prefix: the text applier's board equals the oracle position (placement, side, rights, en passant target, king squares) and its key equals the from-scratch key; it equals the generator-chain board field for field incl. key; every generated successor printed as text and replayed reproduces itself; `position` on the whole list and on sampled prefixes equals the incremental result and fills the repetition table with plies+1 entries. evaluations = prefixes checked. Non-trivial = game containing at least one castling, en passant, promotion, double step answering a double step, or a rook with its right leaving / being captured on a corner; distinct by (start, move list).".into();
+            ctx.assumptions = vec!["oracle validated each run against published perft totals".into()];
+            hash::run_c04(ctx);
+        }
+        "C05" => {
+            ctx.rule = "Cases are steps of histories: for each move of a generated game the three producers (generator successor, text applier, FEN loader of the resulting position) must each give key == key recomputed from scratch (placement, side, four rights, en passant file) judged per step by the key delta, all three must agree, and any position met again by another route must have the same key; plus explicitly constructed transposition pairs (reordered last four plies reaching the same position), single-component mutations (keys must differ), and the exhaustive pairwise distinctness of the 781 constants. Non-trivial step = en passant capture, promotion, capture-promotion, castling, double step while an en passant target is set, right lost by rook capture; transposition pairs and mutations count as non-trivial cases; distinct by (position, move).".into();
+            ctx.assumptions = vec!["scratch key recomputed through ZobristHasher's public getters only".into(), "oracle validated each run against published perft totals".into()];
+            hash::run_c05(ctx);
+        }
+        "C06" => {
+            ctx.rule = "Cases are placements with one king per side (kings may be adjacent; legal or not regarding whose turn it is), loaded through from_fen; is_check is asked for BOTH colours and compared with the oracle's attack test (which goes from each enemy man to the king, the engine goes from the king outwards). Families: the complete three-man basis E4 (both kings on every ordered square pair x one further man of every kind and colour on every square), a strided four-man family (attacker + potential blocker), random sparse / dense / kings-close placements. Non-trivial = king on the rim, adjacent kings, an enemy pawn diagonally adjacent to a king (attacking or behind), or a man standing on the line between a king and an enemy slider; distinct by placement.".into();
+            ctx.assumptions = vec!["oracle attack test validated through the published perft totals and the 22 rule positions".into()];
+            statics::run_c06(ctx);
+        }
+        "C14" => {
+            ctx.rule = "Cases are placements (legal or not, up to 9 queens / 10 rooks, bishops, knights / 8 pawns a side) with a side to move. Metamorphic oracle: eval(P) == eval(colour-mirror(P)); eval(P with the other side to move) == -eval(P); eval unchanged when castling rights, en passant target, last_move, pawn_promotion, key and ordering value are overwritten; |eval| < 50000. Families: the complete single-piece basis E5 (12 pieces x 64 squares x 25 game-phase weights) and random sparse / dense / queen-heavy placements. Non-trivial = placement not equal to its own colour-mirror; distinct by (placement, side to move).".into();
+            ctx.assumptions = vec!["the mirror transformation is the oracle's (validated as an involution preserving move counts)".into()];
+            statics::run_c14(ctx);
+        }
         _ => return false,
     }
     true
@@ -29,6 +51,10 @@ pub fn replay(prop: &str, _family: &str, case: &Value) -> CaseResult {
         "C01" => movegen::replay_c01_c02(movegen::Which::C01, case),
         "C02" => movegen::replay_c01_c02(movegen::Which::C02, case),
         "C13" => movegen::replay_c13(case),
+        "C04" => hash::replay_c04(case),
+        "C06" => statics::replay_c06(case),
+        "C14" => statics::replay_c14(case),
+        "C05" => hash::replay_c05(case),
         _ => Err(format!("no replay for property {}", prop)),
     }
 }
